@@ -20,7 +20,8 @@ EXPLANATION = (
     "the writer and the encoded header the same depth, and no call site declares one depth in `updates` and writes "
     "another; (R4) the reader infers the sample count as floor(8*datalen/nbits/nchans); (R5) the .inf writer and reader "
     "iterate the same presto_inf table, which carries tstart, tsamp and dm, and every key it names exists; (R6) the SIGPROC "
-    "writer and reader pack/unpack sub-byte samples with the same (stream) depth and bit order. Not decided: "
+    "writer and reader pack/unpack sub-byte samples with the same (stream) depth and bit order; (R7) requantisation clips to "
+    "[0, 2^nbits - 1] before the cast. Not decided: "
     "bit-identity of values and metadata precision."
 )
 FILEIO = "sigpyproc.io.fileio"
@@ -97,6 +98,29 @@ def check_declared_width(prog: Program, res: Result, rule: str) -> None:
                     f"e.g. uint8 data written under a 32-bit header, or float32 under an 8-bit header", key=key)
 
 
+def check_bitorder_pairing(prog: Program, res: Result, rule: str) -> None:
+    """SIGPROC writer and reader (un)pack sub-byte samples with the same stream depth and bit order (shared with C07.R6)."""
+    sites = []
+    for f in prog.module(FILEIO).funcs.values():
+        for c in calls_in_body(f.node):
+            if dotted(c.func) in ("unpack", "pack"):
+                kw = {k.arg: k.value for k in c.keywords}
+                nb = c.args[1] if len(c.args) > 1 else kw.get("nbits")
+                sites.append((f, c, norm(nb) if nb is not None else None, norm(kw["bitorder"]) if "bitorder" in kw else None))
+    writers = [x for x in sites if dotted(x[1].func) == "pack"]
+    readers = [x for x in sites if dotted(x[1].func) == "unpack"]
+    if not writers or not readers:
+        raise AnalysisError("fileio: pack/unpack call sites not found")
+    for f, c, nb, bo in sites:
+        key = f"bitorder:{f.qualname}:{dotted(c.func)}"
+        if nb == "self.bitsinfo.nbits" and bo == "self.bitsinfo.bitorder":
+            res.ok(rule, f, c, "sub-byte samples are (un)packed with the stream's own depth and bit order", key=key)
+        else:
+            res.bad(rule, f, c, f"{dotted(c.func)} is called with nbits={nb}, bitorder={bo or '<default big>'}: the writer and the reader no longer agree "
+                    f"on the bit order for every depth (1-bit SIGPROC data is little-endian), so packed samples read back permuted", key=key)
+
+
+
 def _has_prep(fn: FuncInfo) -> bool:
     return bool(prep_calls(fn))
 
@@ -171,25 +195,27 @@ def run(prog: Program, res: Result, tier: str) -> None:
     else:
         res.bad("R2", tf, tf.node, "block layout written by to_file and read by read_block do not agree", construct=key, key=key)
 
-    # ---- R6 bit-order / depth pairing of the SIGPROC writer and reader (shared with C03.R5) ---------------
-    sites = []
-    for f in prog.module(FILEIO).funcs.values():
-        for c in calls_in_body(f.node):
-            if dotted(c.func) in ("unpack", "pack"):
-                kw = {k.arg: k.value for k in c.keywords}
-                nb = c.args[1] if len(c.args) > 1 else kw.get("nbits")
-                sites.append((f, c, norm(nb) if nb is not None else None, norm(kw["bitorder"]) if "bitorder" in kw else None))
-    writers = [x for x in sites if dotted(x[1].func) == "pack"]
-    readers = [x for x in sites if dotted(x[1].func) == "unpack"]
-    if not writers or not readers:
-        raise AnalysisError("fileio: pack/unpack call sites not found")
-    for f, c, nb, bo in sites:
-        key = f"bitorder:{f.qualname}:{dotted(c.func)}"
-        if nb == "self.bitsinfo.nbits" and bo == "self.bitsinfo.bitorder":
-            res.ok("R6", f, c, "sub-byte samples are (un)packed with the stream's own depth and bit order", key=key)
-        else:
-            res.bad("R6", f, c, f"{dotted(c.func)} is called with nbits={nb}, bitorder={bo or '<default big>'}: the writer and the reader no longer agree "
-                    f"on the bit order for every depth (1-bit SIGPROC data is little-endian), so packed samples read back permuted", key=key)
+    check_bitorder_pairing(prog, res, "R6")
+
+    # ---- R7 requantisation to the declared depth ------------------------------------------------------------
+    from .. import kernelspec
+    from ..props import property_expr
+    qf = prog.func("sigpyproc.io.bits", "BitsInfo.quantize")
+    verdict, why = kernelspec.compare(qf, "quantize")
+    if verdict == "incomparable":
+        raise AnalysisError(f"quantize cannot be compared with its reference definition: {why[0]}")
+    (res.ok if verdict == "same" else res.bad)("R7", qf, qf.node, ("quantize = clip(int32(x*scale + mean + 0.5), digi_min, digi_max) cast to the storage dtype; "
+                                                                  if verdict == "same" else "quantize differs from its definition: ") + ("; ".join(why))[:400],
+                                               construct="quantize", key="quantize")
+    bcls = prog.cls("sigpyproc.io.bits", "BitsInfo")
+    for name, want in (("digi_min", "0"), ("digi_max", "(1 << self.nbits) - 1"), ("digi_mean", "(1 << self.nbits - 1) - 0.5"),
+                       ("digi_scale", "self.digi_mean / self.digi_sigma")):
+        pe = property_expr(prog, bcls, name)
+        ok = pe is not None and norm(pe) == want
+        m = bcls.methods.get(name)
+        (res.ok if ok else res.bad)("R7", m, m.node if m else bcls.node, f"BitsInfo.{name} = {want}" if ok else
+                                    f"BitsInfo.{name} is `{norm(pe) if pe is not None else '?'}`, expected `{want}`: quantised values may leave the "
+                                    f"representable range of the declared depth and wrap on the cast", construct=name, key=f"quantize:{name}")
 
     # ---- R3 depth agreement ----------------------------------------------------------------------
     prep = prog.func(HEADER, "Header.prep_outfile")
@@ -311,6 +337,7 @@ def run(prog: Program, res: Result, tier: str) -> None:
         res.ok("R5", rd, rd.node, f"from_inffile supplies all {len(required)} required Header fields", construct="from_inffile", key=key)
     res.floor("R1", 1)
     res.floor("R6", 3)
+    res.floor("R7", 5)
     res.floor("R2", 5)
     res.floor("R3", 13)
     res.floor("R4", 2)
@@ -353,6 +380,10 @@ MUTANTS = [
                {"file": F, "old": "        arr = np.asarray(arr).astype(self.bitsinfo.dtype, copy=False)\n", "new": ""}]},
 ]
 MUTANTS += [
+    {"id": "c04-digi-max-overflow", "file": "sigpyproc/io/bits.py", "expect": "C04.R7",
+     "old": "        return (1 << self.nbits) - 1", "new": "        return 1 << self.nbits"},
+    {"id": "c04-quantize-no-clip", "file": "sigpyproc/io/bits.py", "expect": "C04.R7",
+     "old": "        np.clip(arr, self.digi_min, self.digi_max, out=arr)\n", "new": ""},
     {"id": "c04-writer-default-bitorder", "file": F, "expect": "C04.R6",
      "old": "            packed = pack(arr, self.bitsinfo.nbits, bitorder=self.bitsinfo.bitorder)", "new": "            packed = pack(arr, self.bitsinfo.nbits)"},
     {"id": "c04-reader-big", "file": F, "expect": "C04.R6",
